@@ -124,8 +124,7 @@ seed("C05_s1", "C05", "tensor_einsum_reduce_sum: inverse permutation (same as C0
 seed("C05_s2", "C05", "DecayChain.get_m_dep drops the per-event charge of CP-violating chain couplings", "is_cp couplings AND charge -1 events AND a cached / factorised strategy",
      "caught (4 failures) by the is_cp scenario added in the same round; the earlier version had no is_cp configuration and was not run against it", "check strengthened")
 
-# third round (2026-10-01, after the second hunt round; seeders worked on /repo 86e5232): one change per property on the checks
-# that had been strengthened most; all five were reported at the first attempt
+# third round (2026-10-01, after the second hunt round; seeders worked on /repo 86e5232): one change per property; all nine were reported at the first attempt
 seed("C04_t1", "C04", "get_relative_p2 clamps negative q^2 at 0 (nominal q0^2 of the barrier normalisation no longer continued analytically)",
      "a J >= 1 resonance whose nominal mass lies outside the phase space (below the daughters' threshold or beyond the kinematic limit)",
      "caught at the first attempt: 18 failures (layers of the far / sub-threshold plans)")
@@ -138,11 +137,20 @@ seed("C13_t1", "C13", "GetA2BC_LS_list flattened: the p_break branch appends bef
 seed("C15_t1", "C15", "_ad_hoc effective mass: tanh argument divided by the half range instead of the documented full range", "BWR_below (or below_threshold) with the nominal mass below threshold",
      "caught at the first attempt by 1 case (the only sub-threshold BWR_below particle case of the quick tier); the quick tier now has two such cases (2 failures), the thorough tier ten", "margin widened")
 
+seed("C02_t1", "C02", "SU2M.get_euler_angle: alpha, gamma from angle(x11*conj(x10)), angle(x11*x10) - each wrapped separately, the double-cover sign is lost",
+     "a half-integer-spin final particle AND >= 2 chain topologies", "caught at the first attempt: 37 failures (alignment layer and densities of the spin-1/2 configurations)")
+seed("C05_t1", "C05", "opt_int.gls_combine: outer product of the coupling vectors in the opposite order (newest factor slow instead of fast)",
+     "a chain with two decays of more than one (l,s) coupling AND cached_int or cached_shape", "caught at the first attempt: 12 failures (cached_shape cells and cached_int likelihood rows of the vector configurations)")
+seed("C16_t1", "C16", "refresh_vars tests the tf.Variable's trainable flag instead of membership in trainable_vars",
+     "a tie with a free head and a fixed later member, then refresh_vars", "caught at the first attempt: 27 failures (history comparison and the fixed-parameter invariant)")
+seed("C17_t1", "C17", "AbsPDF.temp_params snapshots with VarsManager.get's default val_in_fit=True and restores with val_in_fit=False",
+     "a model with bounded parameters (bnd_dic not empty) and any temp_params block or helper built on it", "caught at the first attempt: 212 failures")
+
 if __name__ == "__main__":
     lines = ["# Seeded changes (confirmed in a scratch worktree: demo passes clean, fails with the change, pinned tests unchanged)", "",
              "Each patch.diff is relative to the /repo HEAD at the time it was seeded (first round: d64dc15 / 69132ff, second round `_s`: a1f549d, third round `_t`: 86e5232 = final);",
              "C04_m1 was rebased onto the repaired Bprime_q2 (same change of the same statement; the original is kept as patch_original_d64dc15.diff).",
-             "On the final /repo HEAD 60 of the 66 apply with `git -C /repo apply`.  Not applicable any more, because a later repair rewrote the statement",
+             "On the final /repo HEAD 64 of the 70 apply with `git -C /repo apply`.  Not applicable any more, because a later repair rewrote the statement",
              "they change: C03_m2 (FitFractions.append_int), C06_m1 (cfit normalisation), C12_s2 (clip of cos(beta) before acos: the extraction is",
              "2 atan2(|x10|,|x11|) since a129335), C04_m2 and C08_s1 (these two had already stopped manifesting after a1f549d / d8e81e5).  C13_s2 still applies",
              "but no longer manifests: it routed integer-valued FLOAT spins to the JSON table, whose string keys missed them - repair 9ef724b normalises",
